@@ -19,7 +19,7 @@ ASSUMPTIONS = [
 ]
 UNVERIFIED = [
     "Alphabet / LetterAlphabet / AlphabetMapper Python wrappers, Sequence.code setter, NucleotideSequence.complement/translate, "
-    "CodonTable radix mapping, KmerAlphabet.fuse/split (NumPy-vectorised bodies: not under contract in this build)",
+    "CodonTable radix mapping, KmerAlphabet.fuse and the split() wrapper (NumPy-vectorised bodies: not under contract in this build)",
 ]
 
 
@@ -187,6 +187,13 @@ for _tm, _ti in (("uint8", "uint8"), ("uint16", "uint64"), ("uint8", "uint32")):
                       loops={0: {"invariant": [inv_map]}},
                       raises={"ValueError": lambda I, env: I.ghost["map"]["m"] != I.ghost["map"]["m_out"], "IndexError": raises_map_index},
                       ensures=[("mapped", ens_map)], timeout=20))
+# k-mer based alphabets: the kernel that decodes a k-mer code into its k base-alphabet codes (contract and cases
+# are defined with the other KmerAlphabet kernels in contracts/C10.py; registered here as well because decoding a
+# k-mer symbol is this kernel)
+from contracts import C10 as _c10
+CASES += [_c for _c in _c10.CASES if "KmerAlphabet._split" in _c.name and ("k=3, alphabet of 4" in _c.name or "alphabet of 24" in _c.name)]
+ASSUMPTIONS.append("KmerAlphabet._split: concrete (k, alphabet size) pairs (3, 4) and (3, 24); valid k-mer codes are the precondition that split() checks; "
+                   "the digits it returns are the unique positional representation, so fuse(split(c)) == c follows by the definition of the positional sum")
 MIN_OBLIGATIONS = 15
 
 
